@@ -611,7 +611,8 @@ func (t *styT) srcRT() string {
 			return "CapabilityType(" + s + ")!"
 		}
 	case "fun":
-		if p, q := sub(t.a), sub(t.b); p != "" && q != "" {
+		// a type value of a function type is not storable, so it cannot sit in the `parameters` array
+		if p, q := sub(t.a), sub(t.b); p != "" && q != "" && !t.a.hasFun() {
 			return "FunctionType(parameters: [" + p + "], return: " + q + ")"
 		}
 	case "inter":
